@@ -192,6 +192,7 @@ func main() {
 	skip := flag.String("skip", "", "functions that get no pause points")
 	only := flag.String("only", "", "if set, only these functions get pause points")
 	nosync := flag.Bool("nosync", false, "leave the sync import alone")
+	swap := flag.String("swap", "", "further import swaps: old=zzverif-package,... (e.g. net=vnet)")
 	flag.Parse()
 	src := flag.Arg(0)
 	base = filepath.Base(src)
@@ -239,6 +240,12 @@ func main() {
 				if is.Path.Value == `"sync"` && !*nosync {
 					is.Path.Value = strconv.Quote(psyncPath)
 					is.Name = ast.NewIdent("sync")
+				}
+				for _, sw := range strings.Split(*swap, ",") {
+					if kv := strings.SplitN(strings.TrimSpace(sw), "=", 2); len(kv) == 2 && is.Path.Value == strconv.Quote(kv[0]) {
+						is.Path.Value = strconv.Quote(strings.TrimSuffix(pausePath, "pause") + kv[1])
+						is.Name = ast.NewIdent(filepath.Base(kv[0]))
+					}
 				}
 			}
 		}
